@@ -3,7 +3,7 @@
    the store that consumes it in rcu_read_lock / rcu_read_unlock, inside synchronize_rcu, inside bp registration - unless t has blocked signals
    (then it stays pending until the mask is lifted).  The handler runs lock / litmus loads / unlock, possibly nested, and checks the frame property:
    nesting count and rcu_read_ongoing() as before, the very same word when the count is non-zero.
-   usage: scen_sig PROG SCHED ; ops: ( ) r q S as in scen_gp.c ; bp threads start unregistered (registration happens on first use, also in a handler). */
+   usage: scen_sig PROG SCHED ; ops: ( ) r q S as in scen_gp.c, K (bp) = urcu_bp_before_fork(); urcu_bp_after_fork_parent() ; bp threads start unregistered (registration happens on first use, also in a handler). */
 #ifdef FLAVOR_BP
 #include "/repo/src/urcu-bp.c"
 #define RL() urcu_bp_read_lock()
@@ -70,6 +70,10 @@ static void body(int t){
 		case 'r': if(depth) litmus(t,1,"reader"); break;
 		case 'q': if(depth) litmus(t,0,"reader"); break;
 		case 'S': CMM_STORE_SHARED(pre[g],1); vs_call("sync",g); SYNC(); vs_ret("sync",g); CMM_STORE_SHARED(post[g],1); g++; break;
+#ifdef FLAVOR_BP
+		/* the documented fork bracket of the parent, without the fork itself: before_fork takes the library's locks, after_fork_parent releases them */
+		case 'K': vs_call("forkbracket",0); urcu_bp_before_fork(); vs_note("forkpoint"); urcu_bp_after_fork_parent(); vs_ret("forkbracket",0); break;
+#endif
 		}
 	}
 #ifdef FLAVOR_BP
